@@ -1,7 +1,7 @@
 """C09 — alternative distance algorithms (structural clauses)."""
 from . import scopes
 from ..core.report import DOMAIN_D
-from ..rules import nesterov, johnson, mink, loops, frame, unpack
+from ..rules import nesterov, johnson, mink, loops, frame, unpack, misc2
 from .common import e2
 
 N1 = "distance3d.gjk._gjk_nesterov_accelerated"
@@ -29,4 +29,6 @@ def run(idx, rep, tier):
     mink.r_mink(idx, rep, modules=[N1, N2, O], floor=4)
     loops.r_loop(idx, rep, [N1, N2, O], floor=5)
     frame.r_frame(idx, rep, e2(idx), modules={N1, N2}, floor=10)      # relative pose oR1 / ot1 of collider 1 in collider 0's frame
+    nesterov.r_mainloop(idx, rep)
+    misc2.r_dupcond(idx, rep, [m.name for m in idx.lib_modules()], floor=3)
     unpack.r_unpack(idx, rep, floor=27)
